@@ -45,6 +45,9 @@ def make_cells(ck):
                 cells.append(dict(target="gauss4", N=N, n_total=8 * N, mode="vec", kernel=kern, resample="syst", clustering=False))
             cells.append(dict(target="bimodal", N=N, n_total=8 * N, mode="vec", kernel=kern, resample="syst", clustering=True, volume_variation=2.0,
                               tkw=dict(p=0.85)))
+            # posterior 1000x narrower than the prior (sd 1e-3 in cube units, ~30 temperature steps)
+            if kern == "tpcn":     # (RWM with the default step budget has a large finite-N error on this target: not a fair cell)
+                cells.append(dict(target="gauss2", N=N, n_total=8 * N, mode="vec", kernel=kern, resample="mult", clustering=False, tkw=dict(half=500.0, rho=0.5)))
     return cells
 
 
